@@ -58,7 +58,11 @@ def seeded_table():
                 others.append(cid)
         what = (str(meta.get("what_it_breaks", meta.get("title", "")))[:160] + " / needs: " + str(meta.get("needs_to_manifest", ""))[:160]).replace("|", "/").replace("\n", " ")
         cf = f"{conf.get('demo_without_change_rc', '?')}/{conf.get('demo_with_change_rc', '?')}, suite rc {conf.get('existing_suite_with_change_rc', '?')}" if conf else "—"
-        rows.append(f"| {tag} | {meta.get('property')} | {what} | {own} | {', '.join(others) or '—'} | {cf} |")
+        hist = ""
+        hp = os.path.join(d, "history.txt")
+        if os.path.exists(hp):
+            hist = " — _history:_ " + " ".join(open(hp).read().split()).replace("|", "/")
+        rows.append(f"| {tag} | {meta.get('property')} | {what} | {own}{hist} | {', '.join(others) or '—'} | {cf} |")
     return "\n".join(rows)
 
 
